@@ -30,7 +30,7 @@ def ast_class_name(prog: Program, fn: Func, e: ast.AST) -> Optional[str]:
     return None
 
 
-LATER_RULES = " Later rules: R17.2 anchored at the operand swap; (R17.9) arithmetic on a matched constant's value needs an int-pinned template; (R17.10) and/or replaced by a truth value wherever it stands (known finding); (R17.11) function-name dispatch contradiction rule; (R17.12) a helper's 'nothing to simplify' is not a replacement; (R17.13) closed forms of sums need constant ordered bounds; (R17.14) a wildcard that is an operand in a replacement template is parenthesised by precedence, written between parentheses, restricted to tighter classes, or in the same position as in the find template."
+LATER_RULES = " Later rules: R17.2 anchored at the operand swap; (R17.9) arithmetic on a matched constant's value needs an int-pinned template; (R17.10) and/or replaced by a truth value wherever it stands (known finding); (R17.11) function-name dispatch contradiction rule; (R17.12) a helper's 'nothing to simplify' is not a replacement; (R17.13) closed forms of sums need constant ordered bounds; (R17.14) a wildcard that is an operand in a replacement template is parenthesised by precedence, written between parentheses, restricted to tighter classes, or in the same position as in the find template; (R17.15) a statement that answers the truth value of a condition is replaced by the condition itself only for boolean-valued code."
 
 
 def check(prog: Program, tier: str) -> Result:
@@ -70,7 +70,8 @@ def check(prog: Program, tier: str) -> Result:
     _r17_12(prog, res)
     _r17_13(prog, res)
     _r17_14(prog, res)
-    res.floors.update({"R17.14": 10, "R17.13": 2, "R17.12": 1, "R17.11": 3, "R17.10": 3, "R17.9": 3, "R17.1": 12, "R17.2": 10, "R17.3": 4, "R17.4": 40, "R17.5": 6, "R17.6": 4, "R17.7": 2, "R17.8": 1})
+    _r17_15(prog, res)
+    res.floors.update({"R17.15": 2, "R17.14": 10, "R17.13": 2, "R17.12": 1, "R17.11": 3, "R17.10": 3, "R17.9": 3, "R17.1": 12, "R17.2": 10, "R17.3": 4, "R17.4": 40, "R17.5": 6, "R17.6": 4, "R17.7": 2, "R17.8": 1})
     res.analysed["bound_claims"] = n_claims
     return res
 
@@ -271,6 +272,152 @@ def _all_tighter(kw: ast.AST, level: int) -> bool:
         if tight.get(name, -1) <= level:
             ok = False
     return ok
+
+
+
+# ------------------------------------------------------------------------------------------------ R17.15
+def _truth_fold(find: str, replace: str) -> Optional[str]:
+    """The find template decides between the constants True and False by {{w}}, and the replacement uses {{w}} ITSELF as the
+    value (not under `not`, not inside a call): -> w."""
+    import re as _re
+    import textwrap
+    if find is None or replace is None:
+        return None
+    fprobe = _re.sub(r"\{\{(\w+)\}\}", r"W__\1__", find)
+    rprobe = _re.sub(r"\{\{(\w+)\}\}", r"W__\1__", replace)
+    try:
+        ftree, rtree = ast.parse(textwrap.dedent(fprobe)), ast.parse(textwrap.dedent(rprobe))
+    except SyntaxError:
+        return None
+    consts = {c.value for c in ast.walk(ftree) if isinstance(c, ast.Constant) and isinstance(c.value, bool)}
+    if consts != {True, False}:
+        return None
+    tests = [n.test for n in ast.walk(ftree) if isinstance(n, (ast.If, ast.IfExp)) and isinstance(n.test, ast.Name) and n.test.id.startswith("W__")]
+    if not tests:
+        return None
+    w = tests[0].id
+    for n in ast.walk(rtree):
+        value = n.value if isinstance(n, (ast.Return, ast.Assign, ast.AnnAssign, ast.Expr)) else None
+        if isinstance(value, ast.Name) and value.id == w:
+            return w[3:-2]
+    return None
+
+
+def _boolean_classifier(prog: Program, f: Func) -> bool:
+    """f(node) says whether an expression evaluates to True or False: it accepts comparisons and negations, and nothing that can be
+    another object: it never accepts a bare ast.Name / ast.Attribute / ast.Subscript / ast.BinOp, and for and/or demands it of every operand."""
+    text = norm(f.node)
+    if len(f.posparams) != 1 or "ast.Compare" not in text or "ast.Not" not in text:
+        return False
+    accepted = set()
+    for n in ast.walk(f.node):
+        if isinstance(n, ast.Attribute) and isinstance(n.value, ast.Name) and n.value.id == "ast":
+            accepted.add(n.attr)
+    if accepted & {"Attribute", "Subscript", "BinOp", "Starred", "Lambda", "Dict", "List", "Tuple", "Set"}:
+        return False
+    if "Name" in accepted:
+        # ast.Name may only occur as the callee of a call to a function that answers a bool: `ast.Call(func=ast.Name(id=..))`
+        for n in ast.walk(f.node):
+            if isinstance(n, ast.Attribute) and n.attr == "Name" and isinstance(n.value, ast.Name) and n.value.id == "ast":
+                call = parent(n)
+                if not (isinstance(call, ast.Call) and call.func is n and isinstance(parent(call), ast.keyword) and parent(call).arg == "func"):
+                    return False
+    if "BoolOp" in accepted:
+        over_values = [n for n in ast.walk(f.node) if isinstance(n, ast.Call) and isinstance(n.func, ast.Name) and n.func.id in ("all", "any")
+                       and any(isinstance(x, ast.Attribute) and x.attr == "values" for x in ast.walk(n))]
+        if not over_values or any(n.func.id == "any" for n in over_values):
+            return False
+    return True
+
+
+def _r17_15(prog: Program, res: Result) -> None:
+    """`if x: return True` / `return False` answers the TRUTH VALUE of x.  Replacing the statement by `return x` answers x
+    itself - the same only when x evaluates to True or False (a comparison, a negation, a bool(..) call; `a and b` only if
+    both are).  For every find_replace whose find template decides between True and False by a wildcard and whose
+    replacement uses the wildcard itself as the value, the rewrite is handed on only under a positive answer of a
+    classifier of boolean-valued expressions applied to the matched wildcard."""
+    from ..defuse import assignments
+    from ..pathcond import PathAnalysis, plain
+    n = 0
+    for fn in prog.funcs.values():
+        if fn.mod.name not in ("fixes", "performance", "performance_numpy", "performance_pandas", "object_oriented", "symbolic_math"):
+            continue
+        for c in prog.calls_in(fn):
+            r = prog.resolve_call(c.func, fn.mod, fn)
+            if not (r and r[0] == "fn"):
+                continue
+            callee = r[1]
+            def const_of(e):
+                if isinstance(e, ast.Name):
+                    defs = [(st, v) for st, v in assignments(fn, e.id) if v is not None and st.lineno <= c.lineno]
+                    e = max(defs, key=lambda sv: sv[0].lineno)[1] if defs else e
+                return e.value if isinstance(e, ast.Constant) and isinstance(e.value, str) else None
+            texts = [const_of(a) for a in c.args]
+            if callee.key == ("processing", "find_replace") and len(texts) >= 3:
+                w = _truth_fold(texts[1], texts[2])
+                if w is None:
+                    continue
+                n += 1
+                # the rewrite leaves the function at a yield: which must be under classifier(match.<w>)
+                ok = False
+                pa = PathAnalysis(prog, fn)
+                host = parent(c)
+                loop = host if isinstance(host, ast.For) else None
+                if loop is not None:
+                    ys = [y for y in walk_body(loop.body) if isinstance(y, ast.Yield)]
+                    ok = bool(ys)
+                    for y in ys:
+                        worlds = pa.worlds_at(y)
+                        good = bool(worlds)
+                        for wld in worlds:
+                            hit = False
+                            for fct in wld.facts:
+                                if fct[0] == "lit" and fct[2] and f".{w})" in plain(fct[1]):
+                                    callee_name = plain(fct[1]).split("(", 1)[0]
+                                    g = prog.funcs.get((fn.mod.name, callee_name))
+                                    if g is not None and _boolean_classifier(prog, g):
+                                        hit = True
+                            good = good and hit
+                        ok = ok and good
+                res.decide(ok, "R17.15", fn.loc(c), fn.fq, f"`{' '.join(texts[2].split())[:50]}` # the truth value of {{{{{w}}}}} replaced by {{{{{w}}}}} itself",
+                           "handed on only when a classifier found the matched code boolean-valued" if ok else
+                           f"`if {w}: .. True .. else .. False` answers the truth value of {w}, the replacement answers {w} itself, and no test restricts it to code that "
+                           "evaluates to True or False: `if x: return True; return False` becomes `return x` (5 instead of True)")
+            elif any(t is not None for t in texts) and callee.mod.name == fn.mod.name:
+                # through a helper that takes the templates: find_replace inside the helper with the helper's parameters
+                for k in prog.calls_in(callee):
+                    rr = prog.resolve_call(k.func, callee.mod, callee)
+                    if rr and rr[0] == "fn" and rr[1].key == ("processing", "find_replace") and len(k.args) >= 3 \
+                            and all(isinstance(a, ast.Name) and a.id in callee.posparams for a in k.args[1:3]):
+                        fi, ri = callee.posparams.index(k.args[1].id), callee.posparams.index(k.args[2].id)
+                        if fi < len(texts) and ri < len(texts):
+                            w = _truth_fold(texts[fi], texts[ri])
+                            if w is None:
+                                continue
+                            n += 1
+                            pa = PathAnalysis(prog, callee)
+                            loop = parent(k) if isinstance(parent(k), ast.For) else None
+                            ok = False
+                            if loop is not None:
+                                ys = [y for y in walk_body(loop.body) if isinstance(y, ast.Yield)]
+                                ok = bool(ys)
+                                for y in ys:
+                                    worlds = pa.worlds_at(y)
+                                    good = bool(worlds)
+                                    for wld in worlds:
+                                        hit = False
+                                        for fct in wld.facts:
+                                            if fct[0] == "lit" and fct[2] and f".{w})" in plain(fct[1]):
+                                                g = prog.funcs.get((callee.mod.name, plain(fct[1]).split("(", 1)[0]))
+                                                if g is not None and _boolean_classifier(prog, g):
+                                                    hit = True
+                                        good = good and hit
+                                    ok = ok and good
+                            res.decide(ok, "R17.15", fn.loc(c), fn.fq, f"`{' '.join(texts[ri].split())[:50]}` # the truth value of {{{{{w}}}}} replaced by {{{{{w}}}}} itself",
+                                       f"handed on by {callee.node.name}() only when a classifier found the matched code boolean-valued" if ok else
+                                       f"the replacement answers {w} itself instead of its truth value, and {callee.node.name}() hands it on without asking whether {w} "
+                                       "evaluates to True or False")
+    res.analysed["truth_value_folds"] = n
 
 
 
@@ -1556,6 +1703,9 @@ def _run_branch(stmts, state, c, cvar) -> None:
 from ..selftest import Variant  # noqa: E402
 
 VARIANTS = [
+    Variant("truth-value-fold-for-any-condition", "FIRE", "fixes", "        if _is_boolean_valued(template_match.condition):\n            yield tuple(rewrite)\n", "        if template_match.condition:\n            yield tuple(rewrite)\n", "R17.15"),
+    Variant("names-count-as-boolean-valued", "FIRE", "fixes", "    template = (\n        ast.Compare,\n        ast.UnaryOp(op=ast.Not),", "    template = (\n        ast.Compare,\n        ast.Name,\n        ast.UnaryOp(op=ast.Not),", "R17.15"),
+    Variant("and-or-boolean-valued-if-one-operand-is", "FIRE", "fixes", "        return all(map(_is_boolean_valued, node.values))", "        return any(map(_is_boolean_valued, node.values))", "R17.15"),
     Variant("wildcard-operands-pasted-without-parentheses", "FIRE", "core", "        if isinstance(value, ast.expr) and _precedence(value) <= operand_wildcards.get(name, -1):\n            code = f\"({code})\"  # \"not {{x}}\" is about all of x, also if x is \"a or b\"\n", "", "R17.14"),
     Variant("parentheses-only-for-strictly-looser-code", "FIRE", "core", "        if isinstance(value, ast.expr) and _precedence(value) <= operand_wildcards.get(name, -1):", "        if isinstance(value, ast.expr) and _precedence(value) < operand_wildcards.get(name, -1):", "R17.14"),
     Variant("conditional-expression-ranked-above-not", "FIRE", "core", "    if isinstance(node, ast.IfExp):\n        return 2\n", "    if isinstance(node, ast.IfExp):\n        return 6\n", "R17.14"),
